@@ -8,7 +8,7 @@
 use super::*;
 use std::sync::atomic::{AtomicBool, AtomicPtr, AtomicUsize, Ordering};
 
-#[path = "/verif/kani/libc_model.rs"]
+#[path = "libc_model.rs"]
 mod lm;
 use half_lock::verif_contract as hc;
 
